@@ -1,5 +1,7 @@
 #!/usr/bin/env python3
-"""py2coq_client: fail-closed translator for the methods of GeminiClientProtocol (client/protocol.py) -> coq/Gen/ClientGen.v.
+"""py2coq_client: fail-closed translator for the methods of GeminiClientProtocol and TitanClientProtocol (client/protocol.py)
+-> coq/Gen/ClientGen.v.  The two classes go through the same rules and tables (CLASSES gives the class names and the prefix
+of the generated names: gen_m for the Gemini class, gen_titan_m for the Titan class).
 
 Each method `m(self, args) -> None` becomes a Gallina function over the MODEL's connection record (Model.ClientProto.cst)
 
@@ -38,7 +40,8 @@ TRUSTED TABLES (each entry is an assumption about how the model's record and lab
              self.meta -> meta (str; Python's initial None is represented by "" - the translated methods read self.meta
              only as `self.meta or ""`, after assigning it, or, for the response, once self.status is known not to be
              None, which _parse_header sets together with self.meta), self.transport -> connected (bool: is it set)
-  ENV_ATTRS  self.url, self.send_on_connect, self.decode_body: constants of the connection = parameters
+  ENV_ATTRS  self.url, self.titan_url, self.content, self.send_on_connect, self.decode_body: constants of the connection
+             = parameters
   FUTURE     self.response_future.done() -> fut_done; .set_exception(e) / .set_result(r) -> upd_cfut (Done ..), escaping
              with InvalidStateError if already done
   TRANSPORT  self.transport.write(x) -> action CWrite x; self.transport.close() -> action CClose (AttributeError escapes
@@ -53,7 +56,7 @@ TRUSTED TABLES (each entry is an assumption about how the model's record and lab
              white space); str.strip(chars) -> strip_by; str.lower() -> lower (ASCII letters only: enough for the
              comparisons with "text/" and "charset=", no other code point lower-cases to one of their letters);
              str.isascii() -> all_ascii; str.isdigit() -> py_isdigit (partial); int(str) -> Model.Titan.py_int (partial);
-             bytes.decode("utf-8") / str.encode("utf-8") -> Utf8.decode / Utf8.encode (partial); len -> length
+             bytes.decode("utf-8") / str.encode("utf-8") / str.encode() -> Utf8.decode / Utf8.encode (partial); len -> length
   ANNOT      parameter / local annotations -> types (bytes, str, Exception, Exception | None, a transport,
              `str | bytes | None` = the model's cbody)
 SKIPPED STATEMENTS: docstrings only.  IDIOMS (shape-matched statements): only the try/except of DECODE."""
@@ -62,7 +65,8 @@ sys.path.insert(0, os.path.dirname(os.path.abspath(__file__)))
 from py2coq import Untranslatable, bad, coq_str, find_function, SRC
 from py2coq_server import StFn, int_consts
 
-FILE, CLS = "client/protocol.py", "GeminiClientProtocol"
+FILE = "client/protocol.py"
+CLASSES = [("GeminiClientProtocol", ""), ("TitanClientProtocol", "titan_")]     # (class, prefix of the generated names): same tables, same METHODS
 METHODS = ["data_received", "_header_too_long", "_parse_header", "connection_lost", "_set_error", "send_request", "connection_made"]
 
 # ------------------------------------------------------------------ the tables
@@ -73,7 +77,8 @@ ATTRS = {   # self.<attr>: (getter, type, setter)
     "self.meta": ("(meta s__)", "str", "upd_meta"),
     "self.transport": ("(connected s__)", "transport?", "upd_connected"),
 }
-ENV_ATTRS = [("self.url", "url", "str"), ("self.send_on_connect", "send_on_connect", "bool"), ("self.decode_body", "decode_body", "bool")]
+ENV_ATTRS = [("self.url", "url", "str"), ("self.titan_url", "titan_url", "str"), ("self.content", "content", "bytes"),
+             ("self.send_on_connect", "send_on_connect", "bool"), ("self.decode_body", "decode_body", "bool")]
 EXC_LABELS = [   # (constructor, message prefix, model label)
     ("ValueError", "Response header too long", "header_too_long"),
     ("ValueError", "Invalid response header: missing status", "missing_status"),
@@ -98,7 +103,7 @@ RESERVED = {"cbuf", "hdr", "status", "meta", "cfut", "connected", "upd_cbuf", "u
             "prefixb", "suffixb", "split_on", "ustrip", "strip_by", "lower", "all_ascii", "decode", "encode", "length", "nth_error",
             "eqb", "negb", "lit", "Some", "None", "Ok", "Err", "OutOfModel", "Done", "Pending", "ROk", "RErr", "CWrite", "CClose",
             "CEscape", "CNone", "CText", "CBytes", "true", "false", "tt", "N", "Z", "str", "list", "option", "res", "cst", "caction",
-            "cbody", "cresp", "decode_with", "url", "send_on_connect", "decode_body", "bool", "nat"}
+            "cbody", "cresp", "decode_with", "url", "titan_url", "content", "send_on_connect", "decode_body", "bool", "nat"}
 
 class NeedsCPS(Exception):
     """an operand that may raise sits where Python evaluates it conditionally"""
@@ -122,8 +127,8 @@ def annot_type(node, what):
     return ANNOT[txt]
 
 class CFn(StFn):
-    def __init__(self, cls_node, node, consts):
-        self.cls_node, self.node, self.consts = cls_node, node, consts
+    def __init__(self, cls_node, node, consts, prefix=""):
+        self.cls_node, self.node, self.consts, self.prefix = cls_node, node, consts, prefix
         self.env, self.names = {}, {}
         self.pend, self.counter, self.loop_id = [], 0, 0
         self.used_callees, self.used_env, self.used_consts, self.uses_decode_with = [], [], [], False
@@ -440,7 +445,8 @@ class CFn(StFn):
             if m == "lower" and not args: return "(lower %s)" % r, "str"
             if m == "isascii" and not args: return "(all_ascii %s)" % r, "bool"
             if m == "isdigit" and not args: return self.partial("opt", "(py_isdigit %s)" % r, "out_of_model"), "bool"
-            if m == "encode" and cv == ["utf-8"]: return self.partial("opt", "(encode %s)" % r, "UnicodeEncodeError"), "bytes"
+            if m == "encode" and cv in ([], ["utf-8"]):      # the default encoding of str.encode is utf-8
+                return self.partial("opt", "(encode %s)" % r, "UnicodeEncodeError"), "bytes"
         if tr == "bytes":
             if m == "decode" and cv == ["utf-8"]: return self.partial("opt", "(decode %s)" % r, "UnicodeDecodeError"), "str"
         bad(e, "call")
@@ -688,7 +694,7 @@ class CFn(StFn):
         body = self.block(fn.body, dict(fall="(s__, a__)" if kind == "state" else "FALLTHROUGH__"))
         if "FALLTHROUGH__" in body: raise Untranslatable("%s: control can fall off the end" % fn.name)
         if self.pend: raise Untranslatable("internal: unplaced partial operations")
-        name = "gen_" + fn.name.lstrip("_")
+        name = "gen_" + self.prefix + fn.name.lstrip("_")
         if kind == "pure":
             if self.used_callees or self.used_env or self.uses_decode_with: raise Untranslatable("%s: total method with an environment" % fn.name)
             return "Definition %s (s__ : cst) : bool :=\n  %s.\n" % (name, body)
@@ -720,26 +726,27 @@ def main(out_path):
             imported |= {a.name for a in n.names if a.asname is None}
     consts = {k: v for k, v in consts.items() if k in imported}
     consts.update(int_consts(FILE))
-    cls = next((n for n in tree.body if isinstance(n, ast.ClassDef) and n.name == CLS), None)
-    if cls is None: raise Untranslatable("class %s not found" % CLS)
     defs, used = [], []
-    for m in METHODS:
-        fn = find_function(tree, CLS, m)
-        try:
-            t = CFn(cls, fn, consts)
-            defs.append(t.translate())
-            used += [c for c in t.used_consts if c not in used]
-        except NeedsCPS as e:
-            raise Untranslatable("%s:%s: conditionally evaluated partial operation: %s" % (FILE, m, e))
-        except Untranslatable as e:
-            raise Untranslatable("%s:%s: %s" % (FILE, m, e))
+    for CLS, prefix in CLASSES:
+        cls = next((n for n in tree.body if isinstance(n, ast.ClassDef) and n.name == CLS), None)
+        if cls is None: raise Untranslatable("class %s not found" % CLS)
+        for m in METHODS:
+            fn = find_function(tree, CLS, m)
+            try:
+                t = CFn(cls, fn, consts, prefix)
+                defs.append(t.translate())
+                used += [c for c in t.used_consts if c not in used]
+            except NeedsCPS as e:
+                raise Untranslatable("%s:%s.%s: conditionally evaluated partial operation: %s" % (FILE, CLS, m, e))
+            except Untranslatable as e:
+                raise Untranslatable("%s:%s.%s: %s" % (FILE, CLS, m, e))
     chunks = [HEADER]
     for c in sorted(used):
         chunks.append("Definition gen_%s : N := %d%%N.\n" % (c, consts[c]))
     chunks.append("\n")
     for d in defs: chunks += [d, "\n"]
     open(out_path, "w").write("".join(chunks))
-    print("py2coq_client: %d methods translated" % len(METHODS))
+    print("py2coq_client: %d methods translated" % (len(METHODS) * len(CLASSES)))
 
 if __name__ == "__main__":
     try:
